@@ -139,6 +139,30 @@ def run(F, tier, res):
                     okc += 1
                 else:
                     res.violate('CUTTERS', 'fn=%s;pop' % p, 'the last character of the output buffer is removed without a preceding paint call that ends with a newline', where=F.span_of_call(c))
+    # REOPEN: stripping a trailing RESET (truncate under ends_with(RESET)) leaves the style of the line open on purpose; from there every
+    # path to the function's return must append the RESET again
+    for p in sorted(render):
+        uses = _const_uses(F, p)
+        reset_blocks = {bi for (bi, c) in uses if RESET in c['repr']}
+        if not reset_blocks:
+            continue
+        push_reset = {bi for bi in reset_blocks if F.blocks(p)[bi]['t'][0] == 'call' and callee_of(F.blocks(p)[bi]['t'][1]).endswith(('::push_str', '::write_str', '::push'))}
+        for i, c in F.calls(p):
+            if not callee_of(c).endswith('String::truncate'):
+                continue
+            # is the cut-off part the reset? (the subtraction feeding truncate uses RESET.len(), or the ends_with guard names RESET)
+            roots = F.trace(p, c['args'][1], deep=True)
+            names_reset = any(rr[0] == 'const' and RESET in str(rr[1]) for rr in roots)
+            g = Ru.guarded_by(F, p, i, lambda rs: any(rr[0] == 'call' and rr[1].endswith('::ends_with') for rr in rs))
+            if not names_reset and not (g and g[0] in reset_blocks):
+                continue
+            nc += 1
+            miss = Ru.must_pass(F, p, F.cfg(p).get(i, []), push_reset)
+            if push_reset and not miss:
+                okc += 1
+            else:
+                res.violate('CUTTERS', 'fn=%s;reopen' % p, 'a trailing reset is stripped from the line (leaving its style open) and on some path to the return no reset is appended again: '
+                            'the rendition is still set at the end of the line', where=F.span_of_call(c))
     # paint loop ends each line with push('\n')
     pls = [p for p in F.fn_bodies if p.endswith('Painter::<\'p>::paint_lines') or p.endswith('::paint_lines')]
     for p in pls:
@@ -217,7 +241,7 @@ def run(F, tier, res):
             okc += 1
         else:
             res.violate('CUTTERS', 'fn=%s;escape-edge' % p, 'the truncation routine cuts at grapheme level on the escape-sequence edge (or the escape/text distinction is gone): escape sequences can be split', where=F.bodies[p]['mir']['span']['at'])
-    res.rule('C09.CUTTERS', nc, 7, 'truncate / pop sites in the renderer, the paint loop newline, the truncation routine', discharged=okc)
+    res.rule('C09.CUTTERS', nc, 8, 'truncate / pop sites in the renderer, the paint loop newline, the truncation routine', discharged=okc)
     from ._ansi import accounting_rule
     accounting_rule(F, res, 'C09')
     res.distinct.update(r['rule'] for r in res.rules)
